@@ -531,6 +531,12 @@ def check_faces(repo: Repo, rep: Report, dom: "SevDomain", tier: str = "quick"):
     if tier == "thorough":
         cases += list(itertools.product(members, repeat=3)) + list(itertools.product(reps3, repeat=4)) + list(itertools.product(reps3, repeat=5))
         cases = list(dict.fromkeys(cases))
+    # the value main() returns becomes the PROCESS exit status, of which only the low 8 bits survive: a status that is a
+    # count (or any other unbounded number) wraps to 0 for 256 flagged pickles.  Long all-unsafe stacks decide that.
+    unsafe_ = dom.by_name["LIKELY_UNSAFE"]
+    cases += [(unsafe_,) * 256, (safe,) + (unsafe_,) * 256]
+    if tier == "thorough":
+        cases += [(unsafe_,) * 255, (unsafe_,) * 257, (unsafe_,) * 512, (dom.by_name["OVERTLY_MALICIOUS"],) * 256]
     module_consts = {k: ast.literal_eval(v[0]) for k, v in main.module.assigns.items() if len(v) == 1 and isinstance(v[0], ast.Constant)}
     wrong = []
     json_missing = []
@@ -571,7 +577,8 @@ def check_faces(repo: Repo, rep: Report, dom: "SevDomain", tier: str = "quick"):
                     raise AnalysisError(f"cli.main --check-safety arm: cannot interpret over the verdict domain: {e}")
                 evaluations += 1
                 all_safe = all(sv is safe for sv in case)
-                zero = code is None or code is False or (isinstance(code, int) and not isinstance(code, bool) and code == 0)
+                # what the operating system sees: sys.exit(None/False/0) -> 0, an int -> its low 8 bits
+                zero = code is None or code is False or (isinstance(code, int) and not isinstance(code, bool) and (code & 0xFF) == 0)
                 if zero != all_safe:
                     wrong.append((tuple(sv.fields["name"] for sv in case), code))
                 if sorted(i for i, _ in checked) != list(range(len(case))):
@@ -581,7 +588,8 @@ def check_faces(repo: Repo, rep: Report, dom: "SevDomain", tier: str = "quick"):
     rep.extra["cli_exit_evaluations"] = evaluations
     if wrong:
         ex = wrong[0]
-        rep.bad("C10.faces", main.qualname, "cli-exit-code", f"--check-safety exit status is not `0 iff every stacked pickle is LIKELY_SAFE`: {len(wrong)} of {evaluations} verdict sequences wrong, e.g. severities {list(ex[0])} -> exit {ex[1]!r}", cfile, arm.lineno, what=f"exit status wrong on {len(wrong)}/{evaluations} verdict sequences")
+        shown = list(ex[0]) if len(ex[0]) <= 6 else f"{len(ex[0])} stacked pickles, {sum(1 for x in ex[0] if x != 'LIKELY_SAFE')} of them flagged"
+        rep.bad("C10.faces", main.qualname, "cli-exit-code", f"--check-safety exit status is not `0 iff every stacked pickle is LIKELY_SAFE`: {len(wrong)} of {evaluations} verdict sequences wrong, e.g. severities {shown} -> main() returns {ex[1]!r}, i.e. process exit status {(ex[1] & 0xFF) if isinstance(ex[1], int) and not isinstance(ex[1], bool) else ex[1]!r}", cfile, arm.lineno, what=f"exit status wrong on {len(wrong)}/{evaluations} verdict sequences")
     else:
         rep.ok("C10.faces", main.qualname, f"--check-safety exit status == 0 iff all stacked pickles LIKELY_SAFE on all {evaluations} verdict sequences x option settings", f"{cfile}:{arm.lineno}")
     if not_all_checked:
